@@ -113,6 +113,7 @@ class Scheduler:
         self.idle_hooks = []  # callables returning True if external work is still pending (used by settle)
         self.p_stall = 0.0  # fault: a task is descheduled for 1-100 virtual ms at a scheduling point (slow / stalled thread)
         self.stalls = 0
+        self.stall_locks = {}  # lock label -> (probability, durations): targeted stall right before acquiring that lock
 
     # ------------------------------------------------------------------ bookkeeping
     def reseed(self, *key):
@@ -312,6 +313,11 @@ class Scheduler:
     def sleep(self, sec):
         self.block(object(), sec, 'sleep', f'{sec:.6g}')
 
+    def stall_before(self, lock, p, durations=(0.002, 0.01)):
+        """fault placement: a task that is about to acquire <lock> is descheduled first with probability p (the classic
+        window of check-then-lock races)"""
+        self.stall_locks[lock.label] = (p, tuple(durations))
+
     def settle(self, max_virtual=5.0, quantum=0.005):
         """Block the calling (driver) task until no other task is runnable at the current virtual time and no
         idle hook reports pending external work. Returns True if such a quiescent point was reached before
@@ -377,6 +383,11 @@ class SimLock:
                 self._real = _real_allocate()
             return self._real.acquire(blocking, timeout)
         s.yield_point('acq', self.label)
+        if s.stall_locks and self.label in s.stall_locks and not s.current.nopreempt and len(s.tasks) > 1:
+            p, durs = s.stall_locks[self.label]
+            if s.rng.random() < p:
+                s.stalls += 1
+                s.block(object(), s.rng.choice(durs), 'stall', self.label)
         if self._owner is None:
             self._owner = s.current
             return True
